@@ -135,6 +135,12 @@ func errFlow(prog *ssa.Program, cg *callgraph.Graph, byPath map[string]*packages
 			}
 		}
 	}
+	// poll schedule constants (C11): not limits, reported next to them
+	if p := byPath[mod+"/pkg/sql/parser"]; p != nil {
+		if c, ok := p.Types.Scope().Lookup("contextPollInterval").(*types.Const); ok {
+			out.Limits["contextPollInterval"] = c.Val().ExactString()
+		}
+	}
 	for short, names := range map[string][]string{"pkg/sql/tokenizer": {"MaxInputSize", "MaxTokens"}, "pkg/sql/parser": {"MaxRecursionDepth"}} {
 		if p := byPath[mod+"/"+short]; p != nil {
 			for _, n := range names {
